@@ -78,6 +78,25 @@ CHECKS["C13"] = dict(
    text="For corpus/bind/* and the tests/ modules (8 smallest quick / all thorough, each inside the whole tests+std program with a synthesised entry) and for rejected variants of them: every consistent rename of one local binding, every permutation (<=4) or adjacent transposition + reversal of toplevels and of class members, every expression wrapped in ( ) and in { }, every un-annotated let annotated with the inferred type, every inferred type-argument list made explicit, every movable class split into a new module with imports both ways. The verdict must not change; accepted runnable programs must print the same lines and end the same way under refsem.",
    note="Rewrites are text edits at spans validated by C14; only bracket-balanced expression spans are wrapped; annotate/explicit-targs only where the type is closed and spellable. Rejected side is a small set of hand-mutated variants.",
    design_ref="DESIGN.md §5 C13")
+_FAM = "Families (bounded-exhaustive source-text generators): enum type shapes (all variant-kind lists <=3 for one class, all pairs of <=2 (quick) / <=3 (thorough) variant lists for two mutually referring classes in both declaration orders, generic instantiations; every constructor term to depth 2 shown directly, through a generic identity and through a generic struct); integer expressions of depth <=2 over + - * / % with literal and run-time operands over a 9-value alphabet incl. INT_MIN/INT_MAX (overflow and division by zero excluded by an exact evaluator); comparisons, short-circuit and operand order with side effects; closures (0-3 captures x nesting x this), method / function / builtin references, interface-bounded dispatch, call evaluation order; tail recursion with all 49 two-parameter update pairs and 8 three-parameter permutations, non-tail / mutual / method recursion; all Vec operation sequences of length <=3 (quick) / <=4 (thorough) over 11 ops for 5 element types (one program per possibly-panicking sequence); 12 string-literal content classes, fromInt/toInt over the alphabet, panics with 4 message classes; struct patterns in all 6 field orders with and without `as`, nested / or / if-let / tuple patterns."
+CHECKS["C01"] = dict(
+   category="exploration",
+   technique="bounded-exhaustive enumeration of program families compiled by the real pipeline and executed on V8; oracle: reference interpreter of the checked source AST (specification semantics)",
+   text="Every program of the families is type-checked, run under refsem (spec semantics; overflow, division by zero, reference equality, toInt on junk are Unspecified and dropped), compiled with compile_sources and its WebAssembly module is run through the emitted loader on node 22: printed lines and ending (return / panic message) must be equal. " + _FAM,
+   note="Trusted: V8, refsem (bound to tests/snapshot.txt at setup). Small-scope: programs are small; std library behaviour is covered by C18.",
+   design_ref="DESIGN.md §5 C01")
+CHECKS["C03"] = dict(
+   category="exploration",
+   technique="bounded-exhaustive enumeration of accepted programs; oracle: compile without panic, wasmparser validation, engine instantiation, TypeScript parse by node's type stripper, classification of the run's ending",
+   text="Every program of the families (all accepted by the checker): compile_sources must not panic or reject; the binary must validate under wasmparser (GC features); V8 must instantiate it; the .ts must parse; neither run may end in an engine-level fault (illegal cast, null, OOB, signature mismatch, unreachable other than a documented Vec panic, JS TypeError/ReferenceError/SyntaxError) or in the empty-message match-fallback panic that refsem does not predict. " + _FAM,
+   note="Trusted: wasmparser, V8, node's TypeScript stripper. Accepted single-edit mutants of tests/ and std/ are not enumerated yet (families only).",
+   design_ref="DESIGN.md §5 C03")
+CHECKS["C04"] = dict(
+   category="exploration",
+   technique="bounded-exhaustive enumeration of program families; differential oracle: emitted TypeScript vs emitted WebAssembly on the same engine",
+   text="Every program of the families whose reference run is specified: the emitted TypeScript (node --experimental-strip-types) and the emitted WebAssembly must print the same lines and end the same way (both return, or both panic with the same message); stack exhaustion is never compared. " + _FAM,
+   note="Trusted: V8 / node 22 for both sides.",
+   design_ref="DESIGN.md §5 C04")
 NOT_YET = "check not built yet in this round (planned: see DESIGN.md §5)"
 
 hooks_commits = subprocess.run(["git","-C","/repo","log","--format=%H %s"],capture_output=True,text=True).stdout.splitlines()
